@@ -4,6 +4,7 @@
 From Coq Require Import ExtrOcamlBasic.
 From Coq Require Import List ZArith String DecimalString DecimalZ.
 From DD Require Import Model.Circuit.
+From DD Require Import Model.Optimal.
 
 Definition z_to_string (z : Z) : string := NilEmpty.string_of_int (Z.to_int z).
 Definition z_of_string (s : string) : option Z :=
@@ -14,4 +15,5 @@ Extraction "../ocaml/model.ml"
   counts root_count evals eval_root enums enum_root varss
   all_cfgs canon canon_cfg asg_of Models MC ModelsA MCA contains_all
   check_wf idx_ok decomposable smooth complete det_cert unique_leaves no_dead no_true_false
-  lits_nonzero all_reachable.
+  lits_nonzero all_reachable
+  cval calc_best_config calc_top_k_configs calc_top_k_configs_v0_release calc_top_k_configs_v0_debug pick_first is_topk is_best sorted_desc.
